@@ -68,7 +68,7 @@ Print Assumptions C01_rcb_range.
 Theorem C01_rcb_partial : forall fuel (sched : N -> nat -> Rcb.stree) D k tol pts ws p0,
   (0 < D)%nat -> length ws = length p0 -> length pts = length p0 ->
   Forall (fun pt => length pt = D) pts ->
-  RcbInst.coords_ok pts -> Rcb.box_ok32 D pts ws = true ->
+  Coupe.Proofs.RcbBox.coords_in_f32_range pts ->
   Z.of_nat fuel > 2 ^ 33 ->
   exists p, C03.rcb_impl fuel sched D k tol pts ws p0 = Ok p
             /\ length p = length pts /\ Forall (fun i => (i < 2 ^ N.of_nat k)%N) p.
@@ -88,7 +88,7 @@ Print Assumptions C01_rcb_partial.
 Theorem C01_rib_partial : forall fuel (sched : N -> nat -> Rcb.stree) D k tol rotated ws p0,
   (0 < D)%nat -> length ws = length p0 -> length rotated = length p0 ->
   Forall (fun pt => length pt = D) rotated ->
-  RcbInst.coords_ok rotated -> Rcb.box_ok32 D rotated ws = true ->
+  Coupe.Proofs.RcbBox.coords_in_f32_range rotated ->
   Z.of_nat fuel > 2 ^ 33 ->
   exists p, C03.rcb_impl fuel sched D k tol rotated ws p0 = Ok p
             /\ length p = length rotated /\ Forall (fun i => (i < 2 ^ N.of_nat k)%N) p.
